@@ -435,15 +435,18 @@ impl Exec {
         for t in 0..g.n {
             g.yield_blocked[t] = false;
         }
+        let mut handed_over = false;
         if !g.abort {
             if g.finished == g.n {
                 g.current = None;
             } else if g.current == Some(tid) {
                 match self.decide(&mut g, None) {
                     Some(t) => {
+                        // (decide may have set `abort` on a replay divergence: `t` still gets the token and unwinds)
                         g.current = Some(t);
                         g.status[t] = Status::Running;
                         self.cvs[t].notify_all();
+                        handed_over = true;
                     }
                     None => {
                         // unfinished threads exist but none is enabled: they never started or are blocked
@@ -452,7 +455,7 @@ impl Exec {
                 }
             }
         }
-        if g.abort {
+        if g.abort && !handed_over {
             // serialized unwinding: hand the token to the next parked thread, which will unwind in turn
             match (0..g.n).find(|t| g.status[*t] == Status::Parked) {
                 Some(t) => {
